@@ -66,6 +66,9 @@ func TestVerifReplay(t *testing.T) {
 				for _, p := range []string{POSTSUFFIXES} {
 					probes = append(probes, c05probe{text: fmt.Sprintf(PROBEFMT, x, y, z) + p, rel: [3]int{x, y, z}})
 				}
+				for _, p := range []string{PROBEPREFIXES} {
+					probes = append(probes, c05probe{text: p + fmt.Sprintf(PROBEFMT, x, y, z), rel: [3]int{x, y, z}})
+				}
 			}
 		}
 	}
@@ -192,6 +195,7 @@ type shorthandEco struct {
 	probeFmt string
 	pre      []string
 	post     []string
+	prefixes []string // probe texts also with these prefixes (an epoch)
 	cases    string
 }
 
@@ -323,7 +327,7 @@ var shorthandEcos = []shorthandEco{
 		if Z == 0 && Y != 0 { add(c05case{construct: "pessimistic/X.Y", rng: fmt.Sprintf("~>%d.%d", X, Y), lo: c05v(X, Y, 0), loIncl: true, hi: c05v(X+1, 0, 0)}) }
 	}}}
 `},
-	{pkg: "pypi", probeFmt: "%d.%d.%d", post: []string{".post1"}, cases: `
+	{pkg: "pypi", probeFmt: "%d.%d.%d", post: []string{".post1"}, prefixes: []string{"1!"}, cases: `
 	for _, X := range grid { for _, Y := range grid { for _, Z := range grid {
 		b := c05v(X, Y, Z)
 		add(c05case{construct: "compatible/X.Y.Z", rng: "~=" + b, lo: b, loIncl: true, hi: c05v(X, Y+1, 0)})
@@ -339,6 +343,12 @@ var shorthandEcos = []shorthandEco{
 			add(c05case{construct: "wildcard/!=X.*", rng: fmt.Sprintf("!=%d.*", X), lo: c05v(X, 0, 0), loIncl: true, hi: c05v(X+1, 0, 0), neg: true})
 		}
 		add(c05case{construct: "wildcard/==X.Y.Z.*", rng: "==" + b + ".*", lo: b, loIncl: true, hi: c05v(X, Y, Z+1)})
+		// the same constructs on a base with an epoch (the bounds keep the epoch)
+		add(c05case{construct: "compatible/N!X.Y.Z", rng: "~=1!" + b, lo: "1!" + b, loIncl: true, hi: "1!" + c05v(X, Y+1, 0)})
+		if Z == 0 {
+			add(c05case{construct: "compatible/N!X.Y", rng: fmt.Sprintf("~=1!%d.%d", X, Y), lo: "1!" + c05v(X, Y, 0), loIncl: true, hi: "1!" + c05v(X+1, 0, 0)})
+			add(c05case{construct: "wildcard/==N!X.Y.*", rng: fmt.Sprintf("==1!%d.%d.*", X, Y), lo: "1!" + c05v(X, Y, 0), loIncl: true, hi: "1!" + c05v(X, Y+1, 0)})
+		}
 	}}}
 `},
 	{pkg: "nuget", probeFmt: "%d.%d.%d", pre: []string{"-alpha", "-beta.2"}, cases: `
@@ -397,6 +407,7 @@ func (s shorthandEco) source() string {
 	src = strings.ReplaceAll(src, "PROBEFMT", fmt.Sprintf("%q", s.probeFmt))
 	src = strings.ReplaceAll(src, "PRESUFFIXES", quoteList(s.pre))
 	src = strings.ReplaceAll(src, "POSTSUFFIXES", quoteList(s.post))
+	src = strings.ReplaceAll(src, "PROBEPREFIXES", quoteList(s.prefixes))
 	src = strings.Replace(src, "\tCASES\n", s.cases, 1)
 	if harnessThorough {
 		src = strings.Replace(src, "GRID", "0, 1, 2, 3, 9, 10, 99", 1)
